@@ -121,6 +121,51 @@ pub fn judge_history(prefix: &str, case: &Case, ex: &mut Exec, check_conv: bool)
         ex.fail(format!("{}-panic|{}", prefix, panic_signature(p)), format!("run_on panicked: {}", o.result.brief()));
         return;
     }
+    // long data piling up beyond the 64 MiB the server advertises as max_allowed_packet on one
+    // parameter: a server may end the connection over it (as over long data for an unknown id);
+    // every execution it *did* serve must still have been served exactly
+    let over_limit = {
+        let mut pending: std::collections::HashMap<(usize, u16), usize> = Default::default();
+        let mut over = false;
+        for op in &case.ops {
+            match op {
+                Op::Long { stmt, param, data } => {
+                    let e = pending.entry((*stmt, *param)).or_insert(0);
+                    *e += data.len();
+                    over |= *e > (1 << 26);
+                }
+                Op::Exec { stmt, .. } | Op::Reprepare { stmt } => pending.retain(|(s, _), _| s != stmt),
+                Op::Ping => {}
+            }
+        }
+        over
+    };
+    if over_limit && o.result.is_err() {
+        ex.class("over-limit-long-data-ended-the-connection");
+        let execs: Vec<&Event> = o.events.iter().filter(|e| matches!(e, Event::Execute { .. })).collect();
+        if execs.len() > want.len() {
+            ex.fail(format!("{}-exec-count", prefix), format!("{} executions reached the shim, client sent {}", execs.len(), want.len()));
+            return;
+        }
+        for (k, (ev, (id, w))) in execs.iter().zip(&want).enumerate() {
+            if let Event::Execute { id: gid, params } = ev {
+                if gid != id {
+                    ex.fail(format!("{}-id", prefix), format!("execution {} reached the shim with id {}, client sent {}", k, gid, id));
+                    return;
+                }
+                if let Err(m) = compare_seen(params, w, check_conv) {
+                    ex.fail(format!("{}-param-differs", prefix), format!("execution {} (statement {}): {}", k, id, m));
+                    return;
+                }
+            }
+        }
+        let kinds: Vec<ReplyKind> = conv.cmds.iter().map(|sc| sc.cmd.reply_kind()).collect();
+        let d = decode_output(&o.out, &kinds);
+        if d.problem.is_some() && !d.truncated_only {
+            ex.fail(format!("{}-nonconformant", prefix), format!("client decoder rejects the output: {:?}", d.problem));
+        }
+        return;
+    }
     if !o.result.is_ok() && case.tail_unbound.is_none() {
         ex.fail(format!("{}-run-result", prefix), format!("run_on returned {}", o.result.brief()));
         return;
